@@ -1,0 +1,5 @@
+//go:build !verif
+
+package server
+
+func verifWriteGate(int64, int64) {}
